@@ -316,3 +316,54 @@ Definition ff_eqb (a b : ff_obs) : bool :=
   | FFOther x, FFOther y => obs_agree CExact x y
   | _, _ => false
   end.
+
+(* ---------- compact observations of big results (kinds "bigprog" / "bigpair") ---------- *)
+Open Scope Z_scope.
+Definition HP : Z := 1000000007.
+Fixpoint vhash (v : val) : Z :=
+  match v with
+  | VInt z => (z * 7 + 1) mod HP
+  | VPair a b => (vhash a * 31 + vhash b * 17 + 3) mod HP
+  | VList l => fold_left (fun acc x => (acc * 131 + vhash x) mod HP) l 5
+  | VNone => 11
+  | VSome x => (vhash x * 13 + 2) mod HP
+  end.
+Fixpoint leaves (v : val) : Z :=
+  match v with
+  | VInt _ => 1
+  | VPair a b => leaves a + leaves b
+  | VList l => fold_left (fun acc x => acc + leaves x) l 0
+  | VNone => 0
+  | VSome x => leaves x
+  end.
+(* [count; sum ikey; min ikey; max ikey (0 when empty); integer leaves; order-free hash;
+    order-sensitive hash (only meaningful for CExact programs: zeroed otherwise)] *)
+Definition summary (exact : bool) (rows : list val) : list val :=
+  let keys := map ikey rows in
+  let mn := match keys with [] => 0 | k :: r => fold_left Z.min r k end in
+  let mx := match keys with [] => 0 | k :: r => fold_left Z.max r k end in
+  map VInt
+    [Z.of_nat (List.length rows); fold_left Z.add keys 0; mn; mx;
+     fold_left (fun a r => a + leaves r) rows 0;
+     fold_left (fun a r => (a + vhash r) mod HP) rows 0;
+     if exact then fold_left (fun a r => (a * 1000003 + vhash r) mod HP) rows 0 else 0].
+Definition summarise (exact : bool) (o : obs) : obs :=
+  match o with OOk rows => OOk (summary exact rows) | _ => o end.
+(* the observed summary: drop the order-sensitive component unless the order is determined *)
+Definition observed_summary (exact : bool) (o : obs) : obs :=
+  match o with
+  | OOk [c; sk; mn; mx; lv; bh; sh] => OOk [c; sk; mn; mx; lv; bh; if exact then sh else VInt 0]
+  | OOk _ => OHang          (* not a summary: never equal to an expected outcome *)
+  | _ => o
+  end.
+Definition is_exact (steps : list step) : bool :=
+  match cmp_of steps with CExact => true | _ => false end.
+(* big cases are restricted to programs whose nested lists are determined (no CDeep) *)
+Definition big_ok (steps : list step) : bool := negb (lists_arbitrary steps).
+Definition big_agree (m : mode) (s : src) (steps : list step) (o : obs) : bool :=
+  let e := is_exact steps in
+  obs_agree CExact (summarise e (model_outcome m s steps)) (observed_summary e o).
+Definition big_meets_ref (s : src) (steps : list step) (o : obs) : bool :=
+  let e := is_exact steps in
+  obs_agree CExact (summarise e (ref_outcome s steps)) (observed_summary e o).
+Close Scope Z_scope.
